@@ -13,6 +13,7 @@
 //!               every step on the real object and on the Lean object model (`c09 imdseq|td0seq`), saved bytes
 //!               against the bytes the reference encoder predicts (all CRC and length fields included)
 //!   G  60000..  2MG files of other programs built byte-wise (extents anywhere, non-UTF-8 text, stale fields)
+//!   H  70000..  the value domain of every metadata key: acceptance sweep, then every accepted value through the round trip
 use crate::util::*;
 use a2kit::fs::Block;
 use a2kit::img::{self, names, DiskImage, DiskKind};
@@ -671,7 +672,7 @@ fn roundtrip_oracle(out: &mut Out, img: &mut Box<dyn DiskImage>, label: &str, ty
         Ok(b) => b,
         Err(p) => { emit!(false, "to_bytes-no-panic", &sig(&format!("to_bytes-panic:{}", site(&p))), &format!("{} panic={}", case, p)); flush(out, buf, typ, hazards); return (Verdict { ok: false }, Vec::new()); }
     };
-    let (o1, _) = match guarded(|| observe(img)) {
+    let (o1, geo1) = match guarded(|| observe(img)) {
         Ok(o) => o,
         Err(p) => { emit!(false, "observe-no-panic", &sig(&format!("observe-panic:{}", site(&p))), &format!("{} panic={}", case, p)); flush(out, buf, typ, hazards); return (Verdict { ok: false }, b1); }
     };
@@ -700,6 +701,24 @@ fn roundtrip_oracle(out: &mut Out, img: &mut Box<dyn DiskImage>, label: &str, ty
             Ok(Err(e)) => { ok = false; emit!(false, "reload", &sig("reload-refused"), &format!("{} hint={} err={}", case, hs, e)); continue; }
             Err(p) => { ok = false; emit!(false, "reload", &sig(&format!("reload-panic:{}", site(&p))), &format!("{} hint={} panic={}", case, hs, p)); continue; }
         };
+        // FIRST what a user sees right after loading, before anything is asked that makes the object look at its tracks
+        // (`export_geometry` / `get_track_solution` re-derive the kind of a nibble image): the kind as loaded, and every sector
+        // through the geometry of the saved object
+        if check_kind {
+            let k2 = guarded(|| img2.kind().to_string()).unwrap_or_else(|p| format!("panic {}", p));
+            let same = k2 == o1.kind; ok &= same;
+            emit!(same, "same-kind-as-loaded", &sig("kind-differs-right-after-load"), &format!("{} hint={} was={} now={}", case, hs, o1.kind, k2));
+        }
+        if o1.cap <= 4_000_000 && !(typ == "img" && !check_kind) {
+            match guarded(|| dump_sectors(&mut img2, &geo1)) {
+                Ok(sec2) => {
+                    let first = o1.sectors.iter().zip(sec2.iter()).find(|(a, b)| a != b);
+                    let same = o1.sectors.len() == sec2.len() && first.is_none(); ok &= same;
+                    emit!(same, "same-sectors-as-loaded", &sig("sector-content-differs-right-after-load"), &format!("{} hint={} n={}/{} first={:?}", case, hs, o1.sectors.len(), sec2.len(), first));
+                }
+                Err(p) => { ok = false; emit!(false, "same-sectors-as-loaded", &sig(&format!("read-after-load-panic:{}", site(&p))), &format!("{} hint={} panic={}", case, hs, p)); }
+            }
+        }
         let o2 = match guarded(|| observe(&mut img2)) {
             Ok((o, _)) => o,
             Err(p) => { ok = false; emit!(false, "reload", &sig(&format!("observe-reloaded-panic:{}", site(&p))), &format!("{} panic={}", case, p)); continue; }
@@ -1308,6 +1327,127 @@ fn case_foreign_2mg(ctx: &mut Ctx, idx: usize, rng: &mut Rng, fix_len: bool) {
     out.sample(&case);
 }
 
+// ------------------------------------------------------------------------------------------------
+// stream H: the value DOMAIN of every metadata key.  For every key `get_metadata` shows (plus the standard WOZ2 META keys),
+// every candidate value is offered to `put_metadata` on a scratch object — one-byte hex items: all 256 values; longer hex
+// items: boundary patterns; text items: empty, ASCII, multi-byte, over-long, with TAB / CR / LF; constrained META keys: every
+// option of the source's lists and values just outside — so the ACCEPTED domain is what the real code says it is (also sent to
+// the Lean key tables: `metaput`).  Then, per key, accepted values that change the item (all of them for small domains, the
+// boundaries and a sample otherwise) are each put on a FRESH image with a few written sectors, and the image goes through the
+// whole round-trip oracle: after save and reload the SAME disk — kind, geometry, every sector — not just the same bytes.
+// Keys whose value IS the description of the geometry (TD0 sides / drive type / data rate) are offered only their own value.
+
+fn domain_candidates(path: &[String], old: &str, rng: &mut Rng) -> Vec<String> {
+    let last: Vec<&str> = path.iter().map(|s| s.as_str()).filter(|s| *s != "_raw").collect();
+    let is_hex = !old.is_empty() && old.len() % 2 == 0 && old.chars().all(|c| c.is_ascii_hexdigit());
+    if last.len() == 3 && last[0] == "woz2" && last[1] == "meta" {
+        let mut v: Vec<String> = vec!["".into(), "Title".into(), "two words".into(), "ünï 日本".into(), "tab\tinside".into(), "cr\r".into(), "lf\ninside".into(), "x".repeat(300)];
+        match last[2] {
+            "language" => v.extend(["English", "French", "Other", "Klingon", "English|French", "english"].iter().map(|s| s.to_string())),
+            "requires_ram" => v.extend(["16K", "48K", "1.5M+", "1.25M", "Unknown", "47K", "1.5M", "64k"].iter().map(|s| s.to_string())),
+            "requires_rom" => v.extend(["Any", "Integer", "IIgs ROM0+1", "IIgs ROM3", "IIgs ROM2", "any"].iter().map(|s| s.to_string())),
+            "requires_machine" => v.extend(["2", "2+", "2e|2c", "2gs|3+", "4", "2e|"].iter().map(|s| s.to_string())),
+            "side" => v.extend(["Disk 1, Side A", "Disk 12, Side B", "Disk 1, Side C", "Side A", "Disk , Side A"].iter().map(|s| s.to_string())),
+            _ => {}
+        }
+        return v;
+    }
+    if is_hex {
+        let n = old.len() / 2;
+        if n == 1 { return (0..256).map(|b| format!("{:02x}", b)).collect(); }
+        let mut v: Vec<String> = vec!["00".repeat(n), "ff".repeat(n), format!("01{}", "00".repeat(n - 1)), format!("{}01", "00".repeat(n - 1)), format!("{}80", "00".repeat(n - 1)), old.to_string(), old.to_uppercase()];
+        if n == 2 { v.extend(["ff01", "0002", "0001", "ff00", "0100"].iter().map(|s| s.to_string())); }
+        v.push(hex::encode(rng.bytes(n)));
+        v.push("0".repeat(2 * n - 1)); v.push("00".repeat(n + 1)); v.push("zz".repeat(n));
+        return v;
+    }
+    vec!["".into(), "x".into(), "Disk 1, Side A".into(), "ünïcödé 日本語".into(), "  padded  ".into(), "two\nlines".into(), "crlf\r\nline".into(), "tab\there".into(),
+         "nul\u{0}inside".into(), "eof\u{1a}char".into(), "y".repeat(40), "z".repeat(300), "trailing cr\r".into()]
+}
+
+/// keys whose value decides how the bytes are read as a disk: editing them is editing the disk
+fn describes_geometry(path: &[String]) -> bool {
+    let p: Vec<&str> = path.iter().map(|s| s.as_str()).filter(|s| *s != "_raw").collect();
+    matches!(p.as_slice(), ["td0", "header", "sides"] | ["td0", "header", "drive_type"] | ["td0", "header", "data_rate"])
+}
+
+fn case_meta_domain(ctx: &mut Ctx, base_idx: usize, cfg: &Cfg, rng: &mut Rng) {
+    let label = format!("{}/{}{}", cfg.typ, cfg.kind_name, cfg.wrap.map(|w| format!("+{}", w)).unwrap_or_default());
+    let mut scratch = match guarded(|| build(cfg, 254)) { Ok(Ok(i)) => i, _ => return };
+    let typ = scratch.what_am_i().to_string();
+    let meta0 = scratch.get_metadata(None);
+    let mut keys: Vec<(Vec<String>, String)> = leaves(&meta0).into_iter().filter(|(k, _)| k.last().map(|s| s != "_pretty").unwrap_or(false)).collect();
+    if typ == "woz2" {
+        for k in ["title", "subtitle", "publisher", "developer", "copyright", "version", "language", "requires_ram", "requires_rom", "requires_machine", "apple2_requires", "notes", "side", "side_name", "contributor", "image_date", "custom_key"] {
+            let p = vec!["woz2".to_string(), "meta".to_string(), k.to_string()];
+            if !keys.iter().any(|(q, _)| *q == p) { keys.push((p, String::new())); }
+        }
+    }
+    let mut ordinal = 0usize;
+    for (path, old) in keys {
+        let pstr = path.join("/");
+        let cands = domain_candidates(&path, &old, rng);
+        // phase 1: which values does the real code accept?
+        let mut accepted: Vec<String> = Vec::new();
+        let modelled = !(path.len() > 1 && path[1] == "meta") && path.iter().all(|k| !k.is_empty() && !k.contains('/') && !k.contains(' ')) && ["td0", "imd", "2mg", "woz1", "woz2"].contains(&typ.as_str());
+        for v in &cands {
+            let jv = json::JsonValue::String(v.clone());
+            let r = guarded(|| scratch.put_metadata(&path, &jv).map_err(|e| e.to_string()));
+            if modelled {
+                let ans = match &r {
+                    Err(_) => "panic".to_string(),
+                    Ok(Err(_)) => "refused".to_string(),
+                    Ok(Ok(())) => if is_ro(&path) { "skipped".to_string() } else { match lookup(&scratch.get_metadata(None), &path) { Some(g) => format!("ok {}", hx(g.as_bytes())), None => "ok ?".to_string() } }
+                };
+                ctx.out.q(&format!("c09 metaput {} /{} {}", typ, pstr, hx(v.as_bytes())), &ans);
+            }
+            match r {
+                Err(p) => { ctx.out.oracle(false, "put_metadata-no-panic", &format!("c09/{}/put_metadata/panic:{}", cfg.typ, site(&p)), &format!("H idx={} key=/{} val={:?} panic={}", base_idx, pstr, v, p)); scratch = match guarded(|| build(cfg, 254)) { Ok(Ok(i)) => i, _ => return }; }
+                Ok(Ok(())) => { if !is_ro(&path) { accepted.push(v.clone()); } }
+                Ok(Err(_)) => {}
+            }
+        }
+        ctx.out.count_n(&format!("domain:{}:{}:accepted", typ, path.iter().filter(|s| *s != "_raw").skip(1).cloned().collect::<Vec<_>>().join(".")), accepted.len() as u64);
+        if is_ro(&path) { continue; }
+        // phase 2: the accepted values that change the item, each on a fresh image through the whole oracle
+        // hex items are shown in lower case whatever the spelling that was put
+        let is_hex_item = !old.is_empty() && old.len() % 2 == 0 && old.chars().all(|c| c.is_ascii_hexdigit()) && !(path.len() > 1 && path[1] == "meta");
+        let shown = |v: &str| if is_hex_item { normal(&path, v).to_lowercase() } else { normal(&path, v) };
+        let mut pick: Vec<String> = accepted.iter().filter(|v| shown(v) != old).cloned().collect();
+        if describes_geometry(&path) { pick.clear(); ctx.out.count("domain:geometry-describing-key-skipped"); }
+        if pick.len() > 5 {
+            let mut sel = vec![pick[0].clone(), pick[1].clone(), pick[2].clone(), pick[pick.len() - 1].clone()];
+            for _ in 0..(if ctx.tier_thorough { 12 } else { 1 }) { sel.push(pick[rng.below(pick.len())].clone()); }
+            sel.dedup();
+            pick = sel;
+        }
+        for v in pick {
+            let idx = base_idx + ordinal;
+            ordinal += 1;
+            if !ctx.out.wants(idx) { continue; }
+            let mut r = rng.fork(idx as u64);
+            let mut img = match guarded(|| build(cfg, 254)) { Ok(Ok(i)) => i, _ => return };
+            let (_, geo) = geometry(&mut img);
+            let wdesc = random_writes(&mut img, cfg.typ, &geo, &mut r, 2, &mut ctx.out, None);
+            let jv = json::JsonValue::String(v.clone());
+            let case = format!("H idx={} cfg={} writes=[{}] put /{}={:?}", idx, label, wdesc.trim(), pstr, v.chars().take(60).collect::<String>());
+            match guarded(|| img.put_metadata(&path, &jv).map_err(|e| e.to_string())) {
+                Ok(Ok(())) => {
+                    let got = lookup(&img.get_metadata(None), &path);
+                    let deleted = v.is_empty() && path.len() > 1 && path[1] == "meta";
+                    ctx.out.oracle(got.as_deref() == Some(shown(&v).as_str()) || (deleted && got.as_deref().unwrap_or("") == ""), "metadata-put-then-get",
+                        &format!("c09/{}/meta/put-get-differs:{}", cfg.typ, path.iter().filter(|s| *s != "_raw").skip(1).take(2).cloned().collect::<Vec<_>>().join(".")), &format!("{} got={:?}", case, got));
+                    let mut hints: Vec<Option<&str>> = vec![Some(ext_of(cfg.typ))];
+                    if ctx.tier_thorough && self_identifying(cfg.typ) { hints.push(None); }
+                    roundtrip_oracle(&mut ctx.out, &mut img, &format!("{}/meta-domain", label), cfg.typ, records_kind(cfg), &hints, &case, &[]);
+                }
+                _ => ctx.out.oracle(false, "domain-stable", &format!("c09/{}/meta/acceptance-depends-on-history", cfg.typ), &case),
+            }
+            ctx.out.case(case.as_bytes(), true);
+        }
+    }
+}
+
 /// last line of defence: a panic that escaped the per-call guards of a case (real code reached through an unguarded
 /// call, or a slip of the harness itself) becomes a failing verdict with a replayable index instead of killing the run
 fn escaped(ctx: &mut Ctx, stream: &str, idx: usize, p: &str) {
@@ -1363,6 +1503,22 @@ pub fn run(ctx: &mut Ctx) {
         let mut r = rng.fork(idx as u64);
         if !ctx.out.wants(idx) { continue; }
         if let Err(p) = guarded(|| case_foreign_2mg(ctx, idx, &mut r, fix_len)) { escaped(ctx, "G", idx, &p); }
+    }
+    {
+        let dom: Vec<(&str, &str)> = if ctx.tier_thorough {
+            vec![("woz1", "A2_DOS33"), ("woz1", "A2_DOS32"), ("woz2", "A2_DOS33"), ("woz2", "A2_DOS32"), ("woz2", "A2_400"), ("woz2", "A2_800"), ("2mg", "A2_DOS33"), ("2mg", "A2_800"), ("imd", "OSBORNE1_SD"), ("imd", "IBM_SSDD_9"), ("td0", "OSBORNE1_SD"), ("td0", "IBM_SSDD_9")]
+        } else {
+            vec![("woz1", "A2_DOS33"), ("woz1", "A2_DOS32"), ("woz2", "A2_DOS33"), ("woz2", "A2_DOS32"), ("2mg", "A2_DOS33"), ("imd", "OSBORNE1_SD"), ("td0", "OSBORNE1_SD")]
+        };
+        for (ci, (t, k)) in dom.iter().enumerate() {
+            let base_idx = 70000 + ci * 1000;
+            let mut r = rng.fork(base_idx as u64);
+            if let Some(k) = ctx.out.only { if k < base_idx || k >= base_idx + 1000 { continue; } }
+            if let Some(cfg) = cfgs.iter().find(|c| c.typ == *t && c.kind_name == *k) {
+                let cfg = cfg.clone();
+                if let Err(p) = guarded(|| case_meta_domain(ctx, base_idx, &cfg, &mut r)) { escaped(ctx, "H", base_idx, &p); }
+            }
+        }
     }
     for i in 0..ctx.n(2, 9) {
         let idx = 30000 + i;
